@@ -1596,12 +1596,14 @@ func (r *Resolvable) walkFields(obj *Object, value *astjson.Value, parent *astjs
 				} else if obj.Nullable && len(obj.Path) > 0 {
 					// if the field value is not nullable, but the object is nullable
 					// we can just set the whole object to null
+					r.reportUnreachedSiblings(obj, i, filter)
 					astjson.SetNull(r.astjsonArena, parent, obj.Path...)
 					return false
 				}
 
 				// if the field value is not nullable and the object is not nullable
 				// we return true to indicate an error
+				r.reportUnreachedSiblings(obj, i, filter)
 				return true
 			}
 		}
@@ -1629,6 +1631,7 @@ func (r *Resolvable) walkFields(obj *Object, value *astjson.Value, parent *astjs
 				// Non-nullable parent: propagate error; caller closes the envelope.
 				return err
 			}
+			r.reportUnreachedSiblings(obj, i, filter)
 			if obj.Nullable {
 				if len(obj.Path) > 0 {
 					astjson.SetNull(r.astjsonArena, parent, obj.Path...)
@@ -1771,6 +1774,22 @@ func (r *Resolvable) walkUnreachedItem(item Node) {
 	r.popNodePathElement([]string{"@"})
 
 	r.inUnreachedSubtree = wasInside
+}
+
+// reportUnreachedSiblings emits the seeded denials of the fields after index i when the walk of
+// obj stops at field i (an error there nulls the object or propagates), so a denied protected
+// field is reported even if an earlier sibling ends the walk, e.g. the non-nullable root field
+// left empty by a mutation fetch that was skipped because of that very denial.
+func (r *Resolvable) reportUnreachedSiblings(obj *Object, i int, filter walkFieldsFilter) {
+	if !r.unreachedAuthWalk || r.inUnreachedSubtree || filter.enabled {
+		return
+	}
+	for j := i + 1; j < len(obj.Fields); j++ {
+		if r.shouldSkipFieldByTypeCondition(obj.Fields[j]) {
+			continue
+		}
+		r.emitUnreachedFieldDeny(obj.Fields[j])
+	}
 }
 
 // emitUnreachedFieldDeny reports whether the field carries a seeded deny decision, emitting the
